@@ -25,22 +25,27 @@ RC_PRE = "let rc = ::std::rc::Rc::new(1u8); "
 RC_POST = "drop(rc); "
 
 
+HEADER = "pub mod reexp { pub use ::async_trait::async_trait; }\n"
+FLK = {"native": "na", "async_trait": "as", "async_trait_re": "ar"}
+
+
 def enumerate_states(tier):
     states = []
     for mode, ret, ms, body in itertools.product(MODES, RETS, (False, True), ("clean", "rc")):
         flavours = {"fn": ["native"], "mod": ["native"], "trait_self": ["native", "async_trait"], "static_target": ["native", "async_trait"],
                     "trait_ref": ["async_trait"], "dyn_target": ["async_trait"]}[mode]
+        flavours = flavours + (["async_trait_re"] if "async_trait" in flavours else [])   # the attribute named through a re-export
         for fl in flavours:
             if mode in ("trait_ref", "dyn_target") and not RETS[ret].get("dyn", True):
                 continue   # generic methods are not dyn-compatible
             if mode == "static_target" and ret == "generic":
                 continue   # type parameters of impl-block fns are lifted to the delegation-target trait: generic methods are unsupported there
             for mixed in ((False, True) if mode not in ("fn",) else (False,)):
-                states.append(dict(key="s_%s_%s_%s_%s_%s%s" % (mode, ret, "ms" if ms else "send", fl[:2], body, "_mix" if mixed else ""), mode=mode, ret=ret,
+                states.append(dict(key="s_%s_%s_%s_%s_%s%s" % (mode, ret, "ms" if ms else "send", FLK[fl], body, "_mix" if mixed else ""), mode=mode, ret=ret,
                                    maybe_send=ms, flavour=fl, body=body, mixed=mixed))
             if mode in ("trait_self", "trait_ref") and not (mode == "trait_ref" and ret == "generic"):
                 # the async method is PROVIDED by the trait (default body) and not overridden by the application
-                states.append(dict(key="s_%s_%s_%s_%s_%s_prov" % (mode, ret, "ms" if ms else "send", fl[:2], body), mode=mode, ret=ret,
+                states.append(dict(key="s_%s_%s_%s_%s_%s_prov" % (mode, ret, "ms" if ms else "send", FLK[fl], body), mode=mode, ret=ret,
                                    maybe_send=ms, flavour=fl, body=body, mixed=False, provided=True))
     return states, len(states) * 2, dict(modes=MODES, returns=list(RETS))
 
@@ -59,8 +64,8 @@ def body_of(s, val):
 def render(s):
     key, mode, r = s["key"], s["mode"], RETS[s["ret"]]
     ms = s["maybe_send"]
-    at = s["flavour"] == "async_trait"
-    atattr = "#[::async_trait::async_trait%s]" % ("(?Send)" if ms else "")
+    at = s["flavour"].startswith("async_trait")
+    atattr = "#[%s%s]" % ("super::reexp::async_trait" if s["flavour"] == "async_trait_re" else "::async_trait::async_trait", "(?Send)" if ms else "")
     opt = ", ?Send" if ms else ""
     L = ["mod %s {" % key, "    use super::rt;",
          "    pub trait Dep { fn num(&self) -> &i64; }",
@@ -151,7 +156,7 @@ def model(s):
 def structural(s, views):
     """async_trait: async fn kept + attribute re-applied everywhere; native: rewritten to `-> impl Future<Output = R> [+ Send]`."""
     P = []
-    at = s["flavour"] == "async_trait"
+    at = s["flavour"].startswith("async_trait")
     r = RETS[s["ret"]]
     for v in views:
         if "error" in v:
@@ -186,7 +191,7 @@ def structural(s, views):
 
 def evaluate(states, report, tier):
     units = [render(s) for s in states]
-    results, stats = engine.execute(units, feature=False, mode="run")
+    results, stats = engine.execute(units, feature=False, mode="run", header=HEADER)
     report.phases.append(dict(stats))
     reqs, keys = [], []
     for s in states:
@@ -232,7 +237,7 @@ def evaluate(states, report, tier):
                 continue
             done.add(sig)
             tags = {"mode:" + s["mode"], "ret:" + s["ret"], "maybe_send" if s["maybe_send"] else "send", "flavour:" + s["flavour"], "body:" + s["body"], "mixed" if s.get("mixed") else "all-async", "provided" if s.get("provided") else "required"}
-            report.violation(s["key"], tags, sig, detail, state=s, source=engine.standalone_source(u), meta=dict(mode="run"))
+            report.violation(s["key"], tags, sig, detail, state=s, source=engine.standalone_source(u, HEADER), meta=dict(mode="run"))
 
 
 def run(report, tier):
